@@ -20,7 +20,8 @@ class Fn:
                  raises=None, modifies=None, loops=None, decreases=None, inline=False, externals=None,
                  setup=None, assumed_calls=None, post_hints=(), comps=None, self_cls=None,
                  verify=True, closure_of=None, pre_hints=(), at_every_point=None, notes='',
-                 cases=None, sets=None, sets_exc=None, alloc_ret=None):
+                 cases=None, sets=None, sets_exc=None, alloc_ret=None, idempotent_effects=False, ghost_at_call=None):
+        self.ghost_at_call = ghost_at_call   # callable(eng, st, s, ret): ghost bookkeeping executed at call sites
         self.key = key
         self.params = params or {}
         self.requires = list(requires)
@@ -46,6 +47,7 @@ class Fn:
         self.cases = cases               # list of (name, setup) alternative entry configurations (aliasing / None-ness)
         self.sets = sets                 # callable(s, ret) -> [(obj, field, value)]: exact post-values of heap fields
         self.sets_exc = sets_exc
+        self.idempotent_effects = idempotent_effects   # effect summaries of callees are reflexive-transitive (see exprs.comprehension)
         self.alloc_ret = alloc_ret       # callable(eng, st, s) -> return value built with state access
 
 
@@ -55,6 +57,7 @@ class Registry:
         self.fns = {}
         self.externals = {}        # dotted syntactic name -> model, shared by all functions of the module
         self.assumed_calls = {}    # dotted name -> returns sort (terminating, frame-neutral, may raise)
+        self.pure_calls = set()    # assumed calls that are pure functions of their arguments (uninterpreted functions)
         self.assumptions = []      # free-text trusted base entries
         self.axioms = []           # (name, z3 Bool) global axioms (validated facts)
         self.replays = []          # obligation-name regex -> replay function
